@@ -97,6 +97,7 @@ def _check_syntactic(m, run, funcs, summ, contracts):
         ld.extract_curves_rules(m, run, summ)
     n3 = len(run.obs)
     _sd.kd5(m, run)
+    _sd.ec2(m, run)        # extracted shapes are independent objects
     gv_ok = all(o.ok for o in run.obs[n3:])
     with run.corroborating(gv_ok, 'KD5/GV2', rules=('LY2.grid-view', 'LY1.canonical-stride', 'LY3.list-matches-declared-sizes')):
         grid_view(m, run, summ)
